@@ -379,6 +379,7 @@ class _Capture:
 
     def __init__(self):
         self.pages: List[Any] = []
+        self.exported: List[str] = []
 
     def __enter__(self):
         import pdfminer.high_level as H
@@ -393,8 +394,23 @@ class _Capture:
 
         class CapXML(self._orig[1]):
             def receive_layout(self, ltpage):
-                cap.pages.append(dump_item(ltpage))
-                return super().receive_layout(ltpage)
+                node = dump_item(ltpage)
+                iw = self.imagewriter
+                if iw is not None and not hasattr(iw, "_c11_wrapped"):
+                    orig_export = iw.export_image
+
+                    def export(image):
+                        n = orig_export(image)
+                        cap.exported.append(n)
+                        return n
+                    iw.export_image = export
+                    iw._c11_wrapped = True
+                k0 = len(cap.exported)
+                r = super().receive_layout(ltpage)
+                if iw is not None:
+                    attach_image_names(node, cap.exported[k0:])
+                cap.pages.append(node)
+                return r
         H.TextConverter, H.XMLConverter = CapText, CapXML
         return self
 
@@ -403,8 +419,39 @@ class _Capture:
         return False
 
 
-def impl_convert(pdf: bytes, la, otype: str, codec: Optional[str], strip: bool):
-    """Returns (output, tree rendered): str (text sink) when codec is None, else bytes (binary sink)."""
+def attach_image_names(node, names: List[str]) -> None:
+    """Image nodes in render order (pre-order) get the name imagewriter.export_image returned."""
+    it = iter(names)
+
+    def walk(n):
+        k = n[0]
+        if k == "image":
+            nm = next(it, None)
+            if nm is not None:
+                n.append(nm)
+        idx = {"page": 4, "figure": 3, "textline": 2, "textbox": 4}.get(k)
+        if idx is not None:
+            for c in n[idx]:
+                walk(c)
+    walk(node)
+
+
+def impl_convert(pdf: bytes, la, otype: str, codec: Optional[str], strip: bool, images: bool = False):
+    """Returns (output, tree rendered): str (text sink) when codec is None, else bytes (binary sink).
+    `images`: xml only - pass an output_dir, so that an ImageWriter exports the images and <image src=…> is written."""
+    import shutil
+    import tempfile
+    from pdfminer.high_level import extract_text_to_fp
+    if images and otype == "xml":
+        d = tempfile.mkdtemp(prefix="c11img")
+        try:
+            return _impl_convert(pdf, la, otype, codec, strip, os.path.join(d, "out"))
+        finally:
+            shutil.rmtree(d, ignore_errors=True)
+    return _impl_convert(pdf, la, otype, codec, strip, None)
+
+
+def _impl_convert(pdf: bytes, la, otype: str, codec: Optional[str], strip: bool, outdir: Optional[str]):
     from pdfminer.high_level import extract_text_to_fp
     if codec is None:
         fp: Any = io.StringIO()
@@ -412,6 +459,8 @@ def impl_convert(pdf: bytes, la, otype: str, codec: Optional[str], strip: bool):
     else:
         fp = io.BytesIO()
         kw = {"codec": codec}
+    if outdir:
+        kw["output_dir"] = outdir
     with _Capture() as cap:
         extract_text_to_fp(io.BytesIO(pdf), fp, output_type=otype, laparams=mk_laparams(la), strip_control=strip, **kw)
     return fp.getvalue(), cap.pages
@@ -480,6 +529,8 @@ def tree_strings(tree) -> List[str]:
         elif k == "char":
             out.append(n[1])
             out.append(n[6])
+        elif k == "image" and len(n) > 3:
+            out.append(n[3])
     for p in tree:
         walk(p)
     return out
@@ -507,6 +558,8 @@ def opaque_ok(tree) -> bool:
             return all(is_xml_char(ch) and ch not in "&<\r" for ch in n[1])
         if k == "ggroup":
             return plain(n[1]) and all(walk(c) for c in n[2])
+        if k == "image":
+            return plain(n[1]) and plain(n[2])
         return all(plain(x) for x in n[1:])
     return all(walk(p) for p in tree)
 
@@ -550,7 +603,10 @@ def expected_xml(tree, strip: bool):
         if k == "anno":
             return ("text", {}, n[1], [])
         if k == "image":
-            return ("image", {"width": n[1], "height": n[2]}, "", [])
+            a = {"width": n[1], "height": n[2]}
+            if len(n) > 3:
+                a["src"] = name(n[3])
+            return ("image", a, "", [])
         raise C.Infra("bad node")
     return ("pages", {}, "", [el(p) for p in tree])
 
@@ -624,7 +680,7 @@ def node_words(n, out: List[str]) -> None:
     elif k == "anno":
         out += ["anno", cps(n[1])]
     elif k == "image":
-        out += ["image", cps(n[1]), cps(n[2])]
+        out += ["image", cps(n[1]), cps(n[2])] if len(n) == 3 else ["imagesrc", cps(n[3]), cps(n[1]), cps(n[2])]
     elif k == "gbox":
         out += ["gbox", cps(n[1]), cps(n[2])]
     elif k == "ggroup":
@@ -679,13 +735,25 @@ def hexs(s: str) -> str:
 
 
 def eval_case(spec, la, strip: bool, codecs: List[str], want_model: bool = True,
-              only: Optional[str] = None) -> CaseResult:
+              only: Optional[str] = None, images: bool = False) -> CaseResult:
     """Evaluate the property on the implementation for one document / laparams / strip choice over both
     output types, the text sink and the given binary codecs; collect model requests.
     `only` ("text" | "extract_text" | "xml") restricts the evaluation to one output path (used by the shrinker)."""
     res = CaseResult()
-    cfg = {"laparams": la, "strip_control": strip}
+    cfg = {"laparams": la, "strip_control": strip, "images": images}
     pdf = build_pdf(spec)
+
+    def no_src(node):
+        """projection: the reference tree from extract_pages knows no exported names"""
+        k = node[0]
+        if k == "image":
+            return node[:3]
+        idx = {"page": 4, "figure": 3, "textline": 2, "textbox": 4}.get(k)
+        if idx is None:
+            return node
+        n = list(node)
+        n[idx] = [no_src(c) for c in node[idx]]
+        return n
 
     def fail(what, expected, got, **tags):
         tags.setdefault("strip", strip)
@@ -783,7 +851,7 @@ def eval_case(spec, la, strip: bool, codecs: List[str], want_model: bool = True,
         if codec is not None and (xml_text_sink is None or not representable(xml_text_sink, codec)):
             continue
         try:
-            out, tree = impl_convert(pdf, la, "xml", codec, strip)
+            out, tree = impl_convert(pdf, la, "xml", codec, strip, images)
         except Exception as e:  # noqa: BLE001
             fail(f"xml conversion raised {type(e).__name__}" + (" (binary sink)" if codec else ""), "xml output",
                  repr(e), otype="xml", codec=codec, stage="convert")
@@ -796,7 +864,7 @@ def eval_case(spec, la, strip: bool, codecs: List[str], want_model: bool = True,
             in_domain = False
             res.opaque_bad = True
         if codec is None:
-            same_hierarchy(tree, ident, "xml output")
+            same_hierarchy(tree, no_src, "xml output")
             sf = "s" if strip else "k"
             inp = {"spec": spec, **cfg}
             res.req.append((tree_line("xml", tree, sf, "-"), "tie", hexs(out), {"op": "xml", **inp}))
@@ -968,7 +1036,8 @@ def minimise(f: C.Failure, deadline: float) -> C.Failure:
     def same(spec2) -> Optional[C.Failure]:
         if time.time() > deadline:
             return None
-        r = eval_case(spec2, la, strip, [codec] if codec else [], want_model=False, only=only)
+        r = eval_case(spec2, la, strip, [codec] if codec else [], want_model=False, only=only,
+                      images=bool(inp.get("images")))
         for g in r.failures:
             if g.what == f.what and g.tags.get("codec") == f.tags.get("codec"):
                 return g
@@ -998,17 +1067,18 @@ def report(ctx: C.Ctx, f: C.Failure) -> None:
 
 # ------------------------------------------------------------------ run / replay
 
-def run_case(ctx: C.Ctx, spec, la, strip, codecs, branch=None, collect=None) -> None:
-    r = eval_case(spec, la, strip, codecs)
+def run_case(ctx: C.Ctx, spec, la, strip, codecs, branch=None, collect=None, images=False) -> None:
+    r = eval_case(spec, la, strip, codecs, images=images)
     nontriv = getattr(r, "nglyph", 0) > 0 and (special_count(spec) > 0 or not getattr(r, "legal", True)
                                                or spec.get("profile") != "plain")
-    ctx.case(("c11", json.dumps(spec, sort_keys=True), json.dumps(la, sort_keys=True), strip, tuple(codecs)), nontriv,
+    ctx.case(("c11", json.dumps(spec, sort_keys=True), json.dumps(la, sort_keys=True), strip, tuple(codecs), images), nontriv,
              sample={"profile": spec.get("profile"), "laparams": la, "strip_control": strip, "codecs": codecs,
                      "fonts": [f["name"] for f in spec["fonts"]], "xobjs": [x["name"] for x in spec["xobjs"]],
                      "pages": len(spec["pages"])},
              branch=branch or ("profile:" + str(spec.get("profile"))))
     ctx.branch("laparams:" + json.dumps(la, sort_keys=True))
     ctx.branch("strip:" + str(strip))
+    ctx.branch("imagewriter:" + str(images))
     for c in codecs:
         ctx.branch("codec:" + c)
     if hasattr(r, "tree"):
@@ -1093,7 +1163,7 @@ def replay(ctx: C.Ctx, doc, from_corpus: bool = False) -> None:
     codec = inp.get("codec")
     coll: List[CaseResult] = []
     run_case(ctx, inp["spec"], inp.get("laparams"), bool(inp.get("strip_control")), [codec] if codec else [],
-             branch="corpus" if from_corpus else "replay", collect=coll)
+             branch="corpus" if from_corpus else "replay", collect=coll, images=bool(inp.get("images")))
     flush_model(ctx, coll)
 
 
@@ -1115,7 +1185,8 @@ def run(ctx: C.Ctx) -> None:
         strip = (i % 3 == 1) if i < 12 else rng.random() < 0.4
         codecs = [CODECS[i % len(CODECS)], rng.choice(CODECS)]
         codecs = sorted(set(codecs))
-        run_case(ctx, spec, la, strip, codecs, collect=coll)
+        images = any(x["kind"] == "image" for x in spec["xobjs"]) and rng.random() < 0.5
+        run_case(ctx, spec, la, strip, codecs, collect=coll, images=images)
         if len(coll) >= 50:
             flush_model(ctx, coll)
             coll = []
